@@ -268,6 +268,10 @@ class Run:
         for kid, (n, ex) in sorted(self.known_hits.items()):
             d = self.known_defs[kid]
             print("KNOWN-FINDING: property=%s %s: %s (%d cases this run; e.g. %s)" % (self.pid, kid, d.get("summary", ""), n, json.dumps(ex, ensure_ascii=False)[:300]))
+        if os.environ.get("VERIF_DUMP"):
+            with open(os.environ["VERIF_DUMP"], "w") as f:
+                for v in self.violations:
+                    f.write(json.dumps(v, ensure_ascii=False) + "\n")
         if self.violations:
             paths = []
             for i, v in enumerate(self.violations[:10]):
